@@ -846,6 +846,11 @@ func corpusGM(cfg *config) []string {
 			"read wf "+hexBytes(nest("DEVC", nest("STRM", klv("UNIT", 'c', 255, 258, bytes.Repeat([]byte("abcdefg\x00"), 255*258/8+1)[:255*258])))),
 			"read wf "+hexBytes(nest("DEVC", klv("ABCD", 'F', 4, 16400, bytes.Repeat([]byte("GPS5"), 16400)))),
 			"read wf "+hexBytes(nest("DEVC", klv("ABCD", 'G', 16, 4100, bytes.Repeat([]byte("0123456789abcdef"), 4100)))))
+		if cfg.prop == "C06" {
+			// a payload beyond 1 MiB (the format allows 255 x 65535 bytes), followed by another element
+			big := klv("BIGC", 'c', 255, 4200, make([]byte, 255*4200))
+			ops = append(ops, "read wf "+hexBytes(append(big, klv("TAIL", 'S', 2, 1, []byte{0xbe, 0xef})...)))
+		}
 	}
 	return ops
 }
